@@ -139,6 +139,19 @@ def ref_job(job):
             for ident in ("cl", "cl.x"):
                 _, got = replay("rd" + ident.replace(".", "_"), f"$dot.results.2026:last.{ident}", dres[ident])
                 out["dot"][ident] = {"want": dres[ident], "got": got}
+            # a chain (source-mode: preceding) run over a results reference: the first member replays the referenced data.csv,
+            # the second reads what the first collected — not the referenced file again
+            if len(expect["lines"]) >= 2:
+                try:
+                    paths.paths_manager.add_named_paths(name="rchain", paths=['~id: c1~ $[*][ not(eq(line_number(), 1)) ]', '~id: c2 source-mode: preceding~ $[*][ yes() ]'])
+                    c10.set_clock((2026, 5, 6, 7, 9, 45))
+                    paths.collect_paths(pathsname="rchain", filename=rlast)
+                    rr = paths.results_manager.get_named_results("rchain")
+                    man = json.load(open(os.path.join(rr[1].run_dir, "c2", "manifest.json")))
+                    out["ref_chain"] = {"c1": [list(l) for l in rr[0].lines.next()], "c2": [list(l) for l in rr[1].lines.next()],
+                                        "c2_actual_data_file": man.get("actual_data_file"), "c1_data_file": rr[0].data_file_path, "referenced": expect["lines"]}
+                except Exception as ex:  # noqa
+                    out["ref_chain"] = {"exc": type(ex).__name__ + ": " + str(ex)[:160]}
             # a group replaying its own most recent run (the reference names the group that is running)
             paths.paths_manager.add_named_paths(name="selfg", paths=['~id: src~ $[*][ yes() ]'])
             c10.set_clock((2026, 5, 6, 7, 10, 0))
@@ -280,6 +293,16 @@ def run(ctx):
             if not o["exc"] and x["got"] is not None and x["got"] != x["want"]:
                 fails.append({"kind": f"a results reference to the member with identity '{ident}' did not replay that member's data.csv", "rows": rl, "identity": ident, **x})
                 break
+    for (jid, nruns, rl), o in zip(rjobs, rres):
+        rc = None if o["exc"] else o.get("ref_chain")
+        if not rc:
+            continue
+        want_c1 = [l for i, l in enumerate(rc.get("referenced") or []) if i != 1]
+        if rc.get("exc"):
+            fails.append({"kind": "a source-mode: preceding chain run over a results reference raised", "rows": rl, **rc})
+        elif rc["c1"] != want_c1 or rc["c2"] != rc["c1"] or os.path.normpath(rc["c2_actual_data_file"] or "") != os.path.normpath(rc["c1_data_file"] or "-"):
+            fails.append({"kind": "in a chain run over a results reference the source-mode: preceding member did not read exactly its predecessor's data.csv "
+                                  "(or its manifest does not name that file)", "rows": rl, **rc, "c1_expected": want_c1})
     if self_bad:
         fails.append({"kind": "a group replaying its own most recent run did not read that run's data.csv", "rows": self_bad[0][0], **self_bad[0][1]})
     empty_refs = [(rl, x) for (jid, nruns, rl), o in zip(rjobs, rres) if not o["exc"] for x in (o.get("empty_ref") or [])]
@@ -300,7 +323,7 @@ def run(ctx):
         "rule": "chains of 2-4 generated filter csvpaths (10 filter forms, scan windows, side-effect components) with source-mode: preceding on each later member with probability 0.7, over files "
                 "with hostile cells and blank records; every member compared with its standalone run over the input the model prescribes; reference scenarios: group g run 1-3 times over "
                 "different files, then a csvpath reading $g.variables.total/.last/.b.x (tracking), $g.headers.b and $h.variables.total, a results reference by run-dir name, by ':last' and by ':first', references to members whose identity contains a dot, a group replaying its own last run. "
-                "Non-trivial = chains where a preceding member collected some but not all of its predecessor's lines + reference scenarios completed.",
+                "a source-mode: preceding chain run over a ':last' results reference; Non-trivial = chains where a preceding member collected some but not all of its predecessor's lines + reference scenarios completed.",
         "samples": [{"group": jobs[0]["groups"]["g"], "rows": meta[0][2]}],
         "chains": len(jobs), "stage_comparisons": judged, "reference_scenarios": len(rjobs), "empty_stage_chains": len(d14), "failures": len(fails),
         "traces_validated_against_impl": judged,
